@@ -15,6 +15,7 @@ M3  calls and delivered replies are validated by TLC against spec/PD/PDAllocProp
 import json, os, sys, re, subprocess
 sys.path.insert(0, os.path.join(os.path.dirname(os.path.abspath(__file__)), "..", "lib"))
 from vlib import *
+from vpar import validate_traces_parallel
 
 GEN = """SPECIFICATION Spec
 CONSTANTS
@@ -56,8 +57,19 @@ def gen(ctx, kinds, batches):
     return out, r
 
 
+def build_nokv(ctx):
+    """the real nokv binary, built from the tree under test (black-box restart schedules)"""
+    out = os.path.join(ctx.scratch, "nokv")
+    env = dict(os.environ); env.update(GOENV)
+    p = subprocess.run([GO, "build", "-o", out, "./cmd/nokv"], cwd=ctx.repo, env=env, stdout=subprocess.PIPE, stderr=subprocess.STDOUT, text=True)
+    if p.returncode != 0:
+        raise Undecided("building cmd/nokv failed:\n" + p.stdout[-3000:])
+    return out
+
+
 def run_driver(ctx, scheds):
     binp = ctx.build("pdalloc")
+    nokv = build_nokv(ctx)
     procs = []
     for part in chunks(scheds, ctx.workers):
         if not part:
@@ -67,7 +79,7 @@ def run_driver(ctx, scheds):
         with open(inp, "w") as fh:
             for s in part:
                 fh.write(json.dumps(s) + "\n")
-        p = subprocess.Popen([binp, "-in", inp, "-out", outp, "-dir", d], stdout=subprocess.PIPE, stderr=subprocess.STDOUT, text=True)
+        p = subprocess.Popen([binp, "-nokv", nokv, "-in", inp, "-out", outp, "-dir", d], stdout=subprocess.PIPE, stderr=subprocess.STDOUT, text=True)
         procs.append((p, outp))
     traces = {}
     for p, outp in procs:
@@ -140,6 +152,12 @@ def run(ctx):
     for i in range(nfree):
         k = ctx.rng.randint(2, 6)
         scheds.append({"reqs": [{"kind": ctx.rng.choice(["ts", "id"]), "n": ctx.rng.randint(1, 3)} for _ in range(k)], "steps": [], "free": True})
+    # the real `nokv pd` binary: concurrent requests over gRPC, SIGKILL, restart (exercises cmd/nokv/pd.go itself)
+    nbb = 6 if quick else 40
+    for i in range(nbb):
+        k = ctx.rng.randint(2, 5)
+        scheds.append({"reqs": [{"kind": ctx.rng.choice(["ts", "id"]), "n": ctx.rng.randint(1, 3)} for _ in range(k)], "steps": [],
+                       "blackbox": True, "rounds": 3})
     # the interleaving that demonstrated the defect before the repair stays in the set
     replays = json.load(open(os.path.join(VERIF, "findings", "pdalloc_replays.json")))
     for rp in replays:
@@ -147,14 +165,14 @@ def run(ctx):
     for i, s in enumerate(scheds):
         s["id"] = i
     ctx.log("M2: %d schedules (%d two-request prefixes = all, %d of %d three-request prefixes, %d free-running, %d recorded replays)"
-            % (len(scheds), n2, len(scheds) - n2 - nfree - len(replays), n3all, nfree, len(replays)))
+            % (len(scheds), n2, len(scheds) - n2 - nfree - nbb - len(replays), n3all, nfree, len(replays)) + "; %d black-box runs of the nokv binary" % nbb)
     traces = run_driver(ctx, scheds)
     if len(traces) != len(scheds):
         raise Undecided("driver returned %d traces for %d schedules" % (len(traces), len(scheds)))
     order = sorted(traces)
     tl = [project(traces[s]) for s in order]
     # ---------------------------------------------------------------- M3
-    rejected = ctx.validate_traces("PDAllocPropTrace", "PDAllocPropTrace.cfg", tl, family="PD", timeout=1500)
+    rejected = validate_traces_parallel(ctx, "PDAllocPropTrace", "PDAllocPropTrace.cfg", tl, family="PD", timeout=1500)
     nevents = sum(len(t) for t in tl)
     ctx.log("M3: %d traces / %d events validated, %d contradicting replies" % (len(tl), nevents, len(rejected)))
     bysched = {}
@@ -188,8 +206,8 @@ def run(ctx):
     def nontrivial(sid):
         evs = traces[sid]
         replied = any(e["e"] == "Reply" and e["ok"] and e["t"] < 100 for e in evs)
-        return replied and (preemptions(evs) >= 1 or scheds[sid].get("free"))
-    distinct = {json.dumps([scheds[s]["reqs"], scheds[s]["steps"], i if scheds[s].get("free") else 0]) for i, s in enumerate(order) if nontrivial(s)}
+        return replied and (preemptions(evs) >= 1 or scheds[sid].get("free") or scheds[sid].get("blackbox"))
+    distinct = {json.dumps([scheds[s]["reqs"], scheds[s]["steps"], i if (scheds[s].get("free") or scheds[s].get("blackbox")) else 0]) for i, s in enumerate(order) if nontrivial(s)}
     blocked = sum(1 for s in order for e in traces[s] if e["e"] == "Step" and e["state"] == "blocked")
     sample = order[min(len(order) - 1, n2 // 2)]
     ctx.evidence("model_checking", {
@@ -203,7 +221,7 @@ def run(ctx):
         "samples": [{"schedule": scheds[sample], "events": tl[order.index(sample)]}],
         "m1": {"cfg": "MC_PDAlloc.cfg", "generated": m1.generated, "distinct": m1.distinct, "depth": m1.depth, "coverage_zero": m1.coverage_zero,
                "deviant_design": {"cfg": "MC_PDAlloc_asis.cfg", "violates": asis.violated, "distinct_until_counterexample": asis.distinct}},
-        "generation_states": genstates, "two_request_prefixes": n2, "three_request_prefixes_available": n3all,
+        "generation_states": genstates, "blackbox_runs_of_nokv_pd": nbb, "two_request_prefixes": n2, "three_request_prefixes_available": n3all,
         "events_validated": nevents, "failing_schedules": len(bysched),
         "steps_blocked_by_a_lock": blocked, "negative_control": "rejected as required",
         "checker_cmd": "tlc -config MC_PDAlloc.cfg PDAlloc.tla ; tlc -config PDAllocPropTrace.cfg PDAllocPropTrace.tla",
@@ -211,7 +229,7 @@ def run(ctx):
         "process crash = the files as they are on disk at a quiescent instant (all requests parked at gates); no power-loss model (no fsync reasoning)",
         "gates exist where the harness can interpose without touching /repo: SaveAllocatorState entry/exit and the rename of the checkpoint file; "
         "Reserve and the two counter loads are not separated from each other",
-        "restart sequence is a transcription of cmd/nokv/pd.go (package main cannot be imported)",
+        "in gated schedules the restart sequence is a transcription of cmd/nokv/pd.go (package main cannot be imported); the black-box schedules run the built binary itself",
         "TLC results hold for the constants in the cfg files",
     ])
 
